@@ -15,6 +15,8 @@
   Proofs: IocProofs/Lemmas/M2InvStep.lean, IocProofs/Lemmas/M2Inv.lean.
 -/
 import IocProofs.Lemmas.M2Inv
+import Ioc.FactorySkel
+import Ioc.Generated.Facts
 namespace Ioc.C03
 open Ioc.M2
 
@@ -144,5 +146,17 @@ theorem C03_consistent_everywhere_counterexample :
     WF dangling ∧ (final dangling).status = .failed 2 .refresh ∧ raw 0 ∈ (final dangling).fields 1 0 ∧
     (final dangling).l1 0 = none ∧ (final dangling).l2 0 = none :=
   ⟨⟨fun _ => rfl, fun _ => rfl⟩, by decide, by decide, by decide, by decide⟩
+
+
+/-! ### regenerated facts: what the model abstracts about Inject and the version check is still what the source does -/
+
+/-- Property.Inject: self filter, assignability loop, and in the slice branch `dependOn` is called for EVERY element
+    (the machine's `finishedHolderHas` relies on every holder of an early reference being recorded) -/
+theorem C03_inject_skeleton : Ioc.Facts.injectSkel = Ioc.expectedInjectSkel ∧ Ioc.Facts.isSelfSkel = Ioc.expectedIsSelfSkel :=
+  ⟨rfl, rfl⟩
+
+/-- doCreateComponent / getEarlyBeanReference: early exposure before population, the version check reads the early
+    reference with allowEarlyReference = false and consults the dependents of BOTH the early reference and the raw meta -/
+theorem C03_version_check_skeleton : Ioc.Facts.factorySkel = Ioc.expectedFactorySkel := rfl
 
 end Ioc.C03
